@@ -70,6 +70,13 @@ def sequences(tier, rng):
                 state = X.tree_to_string(res['tree'])
         if rng.random() < 0.7:
             docs.append(to_text(ro_delete(10 + n)))
+        if s % 11 == 5:
+            # two different messages under one message ID, far apart in the supplied list: they are applied in supplied order
+            import re
+            twin_a = to_text(metadata_replace(2, [E('roChannel', text='first twin %d' % s)]))       # (the later one wins)
+            twin_b = to_text(metadata_replace(2, [E('roChannel', text='second twin %d' % s)]))
+            docs.insert(1, twin_a)
+            docs.append(twin_b)
         if s % 7 == 3 and len(docs) > 1:
             # the same document supplied twice (for from_files: the same path listed twice)
             docs.append(docs[rng.randrange(1, len(docs))])
